@@ -174,6 +174,19 @@ let () = iter_lines (fun line ->
       let (p, rs) = prun pl_progs (List.map parse_pop ops) { pmax = z_of_dec mx; players = [] } in
       Printf.printf "%s = %s | %s\n" line (String.concat " " (List.map show_pres rs))
         (String.concat "," (List.map string_of_int (List.sort compare (List.map int_of_n p.players))))
+  | "ka" :: evs ->
+      let ev w = match w.[0] with
+        | 'j' -> KJoin (n_of_dec (String.sub w 1 (String.length w - 1)))
+        | 'l' -> KLeft (n_of_dec (String.sub w 1 (String.length w - 1)))
+        | 't' -> KTick (n_of_dec (String.sub w 1 (String.length w - 1)))
+        | 'p' -> KPing | 'k' -> KKick
+        | _ -> failwith ("bad keep-alive event " ^ w) in
+      let s = krun (List.map ev evs) in
+      let cl l = match l with [] -> "-" | _ -> String.concat "," (List.map (fun (_, c) -> dec_of_n c) l) in
+      let ns l = match l with [] -> "-" | _ -> String.concat "," (List.map dec_of_n l) in
+      let sent = match s.ksent with [] -> "-" | l -> String.concat "," (List.map (fun (c, i) -> dec_of_n c ^ ":" ^ dec_of_n i) l) in
+      Printf.printf "%s = index:%d ping:%s wait:%s kicked:%s panics:%d sent:%s\n" line (List.length s.kindex) (cl s.kping) (cl s.kwait)
+        (ns s.kkicked) (int_of_nat s.kpanics) sent
   | ["disc"] ->
       let bad = List.filter (fun l -> not (disciplined [] l)) packet_seqs in
       Printf.printf "disc = %s\n" (if packet_seqs <> [] && bad = [] then "ok" else Printf.sprintf "BAD %d of %d" (List.length bad) (List.length packet_seqs))
